@@ -2234,3 +2234,153 @@ pub fn oracle_self_test(types: &[Ty], cap: usize) -> (u64, u64) {
     }
     (values_n, bytes_n)
 }
+
+// ---------------------------------------------------------------------------------------------
+// Staged campaign with a wall-clock budget
+
+pub struct Stage {
+    pub label: String,
+    pub release: bool,
+    pub idx: Vec<usize>,
+}
+
+/// Stage plan: (0) debug profile on the types with ≤ 2 edges; thorough adds (1) the release
+/// profile on the same types and (2…) the debug profile on the larger types, `chunk_types` types
+/// per stage, in enumeration order.
+pub fn stages(cases: &[Case], thorough: bool, chunk_types: usize) -> Vec<Stage> {
+    let small: Vec<usize> = (0..cases.len()).filter(|&i| cases[i].ty.edges() <= 2).collect();
+    let mut out = vec![Stage {
+        label: "debug/≤2-edges".into(),
+        release: false,
+        idx: small.clone(),
+    }];
+    if !thorough {
+        // quick declares only the small space; anything else is a generator bug
+        if small.len() != cases.len() {
+            vhcore::machinery_failure("quick tier was given types with more than 2 edges");
+        }
+        return out;
+    }
+    out.push(Stage {
+        label: "release/≤2-edges".into(),
+        release: true,
+        idx: small,
+    });
+    let mut cur: Vec<usize> = vec![];
+    let mut types_in_cur = 0usize;
+    let mut n = 0usize;
+    let mut i = 0usize;
+    while i < cases.len() {
+        if cases[i].ty.edges() <= 2 {
+            i += 1;
+            continue;
+        }
+        let mut j = i;
+        while j < cases.len() && cases[j].ty == cases[i].ty {
+            j += 1;
+        }
+        cur.extend(i..j);
+        types_in_cur += 1;
+        if types_in_cur == chunk_types {
+            n += 1;
+            out.push(Stage {
+                label: format!("debug/3-edges/chunk{n}"),
+                release: false,
+                idx: std::mem::take(&mut cur),
+            });
+            types_in_cur = 0;
+        }
+        i = j;
+    }
+    if !cur.is_empty() {
+        out.push(Stage {
+            label: format!("debug/3-edges/chunk{}", n + 1),
+            release: false,
+            idx: cur,
+        });
+    }
+    out
+}
+
+#[derive(Default)]
+pub struct Campaign {
+    pub evals: u64,
+    pub packages: usize,
+    pub rebuilt: usize,
+    pub failing: usize,
+    pub confirmed: usize,
+    pub self_check: String,
+    pub stages_done: Vec<Value>,
+    pub exhaustive: bool,
+}
+
+/// Run the stages in order; before every stage after the first the elapsed wall time is compared
+/// with `budget_s` — when exceeded the remaining stages are skipped, the evidence gets a cap
+/// entry and `exhaustive` is false.
+#[allow(clippy::too_many_arguments)]
+pub fn run_stages(
+    rep: &mut vhcore::Reporter,
+    pool: &Pool,
+    cases: &[Case],
+    plan: &[Stage],
+    prefix: &str,
+    max_cases: usize,
+    budget_s: u64,
+    on_case: &mut dyn FnMut(&Case, &CaseReport, bool),
+) -> Campaign {
+    let start = std::time::Instant::now();
+    let mut c = Campaign {
+        exhaustive: true,
+        ..Default::default()
+    };
+    for (si, st) in plan.iter().enumerate() {
+        if si > 0 && start.elapsed().as_secs() > budget_s {
+            let skipped: usize = plan[si..].iter().map(|s| s.idx.len()).sum();
+            rep.cap(&format!(
+                "wall-clock budget of {budget_s}s exceeded after {} of {} stages: stages {:?} ({} cases) not explored",
+                si,
+                plan.len(),
+                plan[si..].iter().map(|s| s.label.clone()).collect::<Vec<_>>(),
+                skipped
+            ));
+            c.exhaustive = false;
+            break;
+        }
+        let sel: Vec<Case> = st.idx.iter().map(|&i| cases[i].clone()).collect();
+        let cfg = RunCfg {
+            prefix: format!("{prefix}s{si}"),
+            release: st.release,
+            max_cases: max_cases.min((sel.len() / (2 * pool.jobs.max(1))).max(24)),
+            max_words: 2500,
+        };
+        let t0 = std::time::Instant::now();
+        let run = run_cases(pool, &sel, &cfg, si == 0);
+        let wall = t0.elapsed().as_secs_f64();
+        eprintln!(
+            "[{prefix}] stage {si} {}: {} cases in {} packages ({} rebuilt), {wall:.1}s wall",
+            st.label,
+            sel.len(),
+            run.packages,
+            run.rebuilt_packages
+        );
+        if si == 0 {
+            c.self_check = run.self_check.clone();
+        }
+        c.packages += run.packages;
+        c.rebuilt += run.rebuilt_packages;
+        for (case, r) in sel.iter().zip(&run.cases) {
+            c.evals += 1;
+            on_case(case, r, st.release);
+        }
+        let (f, k) = report_failures(rep, pool, &sel, &run, &cfg, 1);
+        c.failing += f;
+        c.confirmed += k;
+        c.stages_done.push(serde_json::json!({
+            "stage": st.label, "cases": sel.len(), "packages": run.packages, "wall_s": (wall * 10.0).round() / 10.0,
+        }));
+    }
+    if c.self_check.is_empty() || c.self_check == "not-run" {
+        vhcore::machinery_failure("Mode F = Mode A self-check did not run");
+    }
+    c
+}
